@@ -170,7 +170,7 @@ func LoadReplay(path string) (*ReplayFile, error) {
 	if err := json.Unmarshal(b, &rf); err != nil {
 		return nil, err
 	}
-	if rf.Case == nil && rf.RaceMonitor == nil {
+	if rf.Case == nil && rf.RaceMonitor == nil && rf.TimeSim == nil {
 		return nil, fmt.Errorf("%s: no case", path)
 	}
 	return &rf, nil
